@@ -20,7 +20,7 @@ def evAw (w : World) (p : Pid) : List Await := (w.proc p).awaits.filter isEventA
 /-- the processes registered as waiting for event `h` -/
 def evWaitersOf (w : World) (h : Nat) : List Pid := (w.evWaiters.lookup h).getD []
 
-structure PInv (fr : Pid → Option Frame) (w : World) : Prop where
+structure PInv (ex : Pid → Prop) (fr : Pid → Option Frame) (w : World) : Prop where
   /-- the kernel invariant (handles unique, nothing pending in the past) -/
   ei : EvInv w.ev
   /-- a process awaits at most one process, and only while suspended in `wait_process` on it -/
@@ -29,28 +29,32 @@ structure PInv (fr : Pid → Option Frame) (w : World) : Prop where
   ae : ∀ p, evAw w p = [] ∨ ∃ h, fr p = some (.waitEvent h) ∧ evAw w p = [.event h]
   /-- only running processes await anything -/
   ar : ∀ p, (w.proc p).status ≠ .running → (w.proc p).awaits = []
+  /-- the logical frame is the recorded one wherever it matters -/
+  fb : ∀ p, (w.proc p).blocked ≠ fr p → procAw w p = [] ∧ evAw w p = []
   /-- I_waiters: a registered waiter awaits that process -/
-  w1 : ∀ p q, q ∈ (w.proc p).waiters → Await.proc p ∈ (w.proc q).awaits
+  w1 : ∀ p q, q ∈ (w.proc p).waiters → ¬ ex q → Await.proc p ∈ (w.proc q).awaits
   wn : ∀ p, (w.proc p).waiters.Nodup
   /-- the same for event waiters -/
-  e1 : ∀ h l q, (h, l) ∈ w.evWaiters → q ∈ l → Await.event h ∈ (w.proc q).awaits
+  e1 : ∀ h l q, (h, l) ∈ w.evWaiters → q ∈ l → ¬ ex q → Await.event h ∈ (w.proc q).awaits
   en : (w.evWaiters.map (·.1)).Nodup ∧ ∀ h l, (h, l) ∈ w.evWaiters → l.Nodup
   /-- a pending process-end wake-up belongs to a process that awaits a process and is no longer registered with it -/
-  op : ∀ e ∈ w.ev.pending, e.item.a = aProc → ∀ p, e.item.b = p + 1 →
+  op : ∀ e ∈ w.ev.pending, e.item.a = aProc → ∀ p, e.item.b = p + 1 → ¬ ex p →
     ∃ q, Await.proc q ∈ (w.proc p).awaits ∧ p ∉ (w.proc q).waiters
   /-- a pending event-done wake-up belongs to a process that awaits an event and is no longer registered with it -/
-  oe : ∀ e ∈ w.ev.pending, e.item.a = aEvent → ∀ p, e.item.b = p + 1 →
+  oe : ∀ e ∈ w.ev.pending, e.item.a = aEvent → ∀ p, e.item.b = p + 1 → ¬ ex p →
     ∃ h, Await.event h ∈ (w.proc p).awaits ∧ p ∉ evWaitersOf w h
   /-- at most one of each per process -/
-  up : ∀ e1 ∈ w.ev.pending, ∀ e2 ∈ w.ev.pending, e1.item.a = aProc → e2.item.a = aProc → e1.item.b = e2.item.b → e1 = e2
-  ue : ∀ e1 ∈ w.ev.pending, ∀ e2 ∈ w.ev.pending, e1.item.a = aEvent → e2.item.a = aEvent → e1.item.b = e2.item.b → e1 = e2
+  up : ∀ e1 ∈ w.ev.pending, ∀ e2 ∈ w.ev.pending, e1.item.a = aProc → e2.item.a = aProc → e1.item.b = e2.item.b →
+    ∀ p, e1.item.b = p + 1 → ¬ ex p → e1 = e2
+  ue : ∀ e1 ∈ w.ev.pending, ∀ e2 ∈ w.ev.pending, e1.item.a = aEvent → e2.item.a = aEvent → e1.item.b = e2.item.b →
+    ∀ p, e1.item.b = p + 1 → ¬ ex p → e1 = e2
 
 /-- the registration-relevant part of the process table is the same -/
 def SameCtl (w w' : World) : Prop :=
   ∀ p, (w'.proc p).awaits = (w.proc p).awaits ∧ (w'.proc p).waiters = (w.proc p).waiters ∧
-    (w'.proc p).status = (w.proc p).status
+    (w'.proc p).status = (w.proc p).status ∧ (w'.proc p).blocked = (w.proc p).blocked
 
-theorem SameCtl.refl (w : World) : SameCtl w w := fun _ => ⟨rfl, rfl, rfl⟩
+theorem SameCtl.refl (w : World) : SameCtl w w := fun _ => ⟨rfl, rfl, rfl, rfl⟩
 
 theorem procAw_congr {w w' : World} (h : SameCtl w w') (p : Pid) : procAw w' p = procAw w p := by
   unfold procAw; rw [(h p).1]
@@ -58,91 +62,94 @@ theorem evAw_congr {w w' : World} (h : SameCtl w w') (p : Pid) : evAw w' p = evA
   unfold evAw; rw [(h p).1]
 
 /-- `PInv` only looks at registrations, the waiter table and the process/event wake-ups -/
-theorem PInv.congr {fr : Pid → Option Frame} {w w' : World} (hp : PInv fr w) (hc : SameCtl w w')
+theorem PInv.congr {ex : Pid → Prop} {fr : Pid → Option Frame} {w w' : World} (hp : PInv ex fr w) (hc : SameCtl w w')
     (hw : w'.evWaiters = w.evWaiters)
     (he : ∀ e' ∈ w'.ev.pending, e'.item.a = aProc ∨ e'.item.a = aEvent → ∃ e ∈ w.ev.pending, e.key = e'.key ∧ e.item = e'.item)
-    (hei : EvInv w'.ev) : PInv fr w' where
+    (hei : EvInv w'.ev) : PInv ex fr w' where
   ei := hei
   ap := fun p => by rw [procAw_congr hc]; exact hp.ap p
   ae := fun p => by rw [evAw_congr hc]; exact hp.ae p
-  ar := fun p h => by rw [(hc p).1]; exact hp.ar p (by rw [← (hc p).2.2]; exact h)
-  w1 := fun p q h => by rw [(hc q).1]; exact hp.w1 p q (by rw [← (hc p).2.1]; exact h)
+  ar := fun p h => by rw [(hc p).1]; exact hp.ar p (by rw [← (hc p).2.2.1]; exact h)
+  fb := fun p h => by rw [procAw_congr hc, evAw_congr hc]; exact hp.fb p (by rw [← (hc p).2.2.2]; exact h)
+  w1 := fun p q h hx => by rw [(hc q).1]; exact hp.w1 p q (by rw [← (hc p).2.1]; exact h) hx
   wn := fun p => by rw [(hc p).2.1]; exact hp.wn p
-  e1 := fun h l q hm hq => by rw [(hc q).1]; exact hp.e1 h l q (by rw [← hw]; exact hm) hq
+  e1 := fun h l q hm hq hx => by rw [(hc q).1]; exact hp.e1 h l q (by rw [← hw]; exact hm) hq hx
   en := by rw [hw]; exact hp.en
   op := by
-    intro e' he' ha p hb
+    intro e' he' ha p hb hx
     obtain ⟨e, hem, _, hi⟩ := he e' he' (Or.inl ha)
-    obtain ⟨q, h1, h2⟩ := hp.op e hem (by rw [hi]; exact ha) p (by rw [hi]; exact hb)
+    obtain ⟨q, h1, h2⟩ := hp.op e hem (by rw [hi]; exact ha) p (by rw [hi]; exact hb) hx
     exact ⟨q, by rw [(hc p).1]; exact h1, by rw [(hc q).2.1]; exact h2⟩
   oe := by
-    intro e' he' ha p hb
+    intro e' he' ha p hb hx
     obtain ⟨e, hem, _, hi⟩ := he e' he' (Or.inr ha)
-    obtain ⟨h, h1, h2⟩ := hp.oe e hem (by rw [hi]; exact ha) p (by rw [hi]; exact hb)
+    obtain ⟨h, h1, h2⟩ := hp.oe e hem (by rw [hi]; exact ha) p (by rw [hi]; exact hb) hx
     exact ⟨h, by rw [(hc p).1]; exact h1, by unfold evWaitersOf at *; rw [hw]; exact h2⟩
   up := by
-    intro a ha b hb haa hba hbb
+    intro a ha b hb haa hba hbb p hbp hx
     obtain ⟨a0, ha0, hka, hia⟩ := he a ha (Or.inl haa)
     obtain ⟨b0, hb0, hkb, hib⟩ := he b hb (Or.inl hba)
     have : a0 = b0 := hp.up a0 ha0 b0 hb0 (by rw [hia]; exact haa) (by rw [hib]; exact hba) (by rw [hia, hib]; exact hbb)
+      p (by rw [hia]; exact hbp) hx
     exact HashHeap.eq_of_key_eq hei.part.keysNodup ha hb (by rw [← hka, ← hkb, this])
   ue := by
-    intro a ha b hb haa hba hbb
+    intro a ha b hb haa hba hbb p hbp hx
     obtain ⟨a0, ha0, hka, hia⟩ := he a ha (Or.inr haa)
     obtain ⟨b0, hb0, hkb, hib⟩ := he b hb (Or.inr hba)
     have : a0 = b0 := hp.ue a0 ha0 b0 hb0 (by rw [hia]; exact haa) (by rw [hib]; exact hba) (by rw [hia, hib]; exact hbb)
+      p (by rw [hia]; exact hbp) hx
     exact HashHeap.eq_of_key_eq hei.part.keysNodup ha hb (by rw [← hka, ← hkb, this])
 
 
 /-! ### atomic transformers -/
 
 theorem sameCtl_of_procs {w w' : World} (h : w'.procs = w.procs) : SameCtl w w' := by
-  intro p; unfold World.proc; rw [h]; exact ⟨rfl, rfl, rfl⟩
+  intro p; unfold World.proc; rw [h]; exact ⟨rfl, rfl, rfl, rfl⟩
 
 theorem sameCtl_modProc (w : World) (p : Pid) (f : Proc → Proc)
-    (hf : ∀ x, (f x).awaits = x.awaits ∧ (f x).waiters = x.waiters ∧ (f x).status = x.status) :
+    (hf : ∀ x, (f x).awaits = x.awaits ∧ (f x).waiters = x.waiters ∧ (f x).status = x.status ∧ (f x).blocked = x.blocked) :
     SameCtl w (w.modProc p f) := by
   intro q
   rw [modProc_proc]
   split
   · rename_i h; rw [h.1]; exact hf _
-  · exact ⟨rfl, rfl, rfl⟩
+  · exact ⟨rfl, rfl, rfl, rfl⟩
 
 /-- nothing relevant changed: same event queue, same waiter table, same registrations -/
-theorem PInv.same {fr : Pid → Option Frame} {w w' : World} (hp : PInv fr w) (hc : SameCtl w w')
-    (hw : w'.evWaiters = w.evWaiters) (he : w'.ev = w.ev) : PInv fr w' :=
+theorem PInv.same {ex : Pid → Prop} {fr : Pid → Option Frame} {w w' : World} (hp : PInv ex fr w) (hc : SameCtl w w')
+    (hw : w'.evWaiters = w.evWaiters) (he : w'.ev = w.ev) : PInv ex fr w' :=
   hp.congr hc hw (by rw [he]; exact fun e h _ => ⟨e, h, rfl, rfl⟩) (by rw [he]; exact hp.ei)
 
-theorem PInv.fail {fr : Pid → Option Frame} {w : World} (h : PInv fr w) (m : String) : PInv fr (w.fail m) :=
+theorem PInv.fail {ex : Pid → Prop} {fr : Pid → Option Frame} {w : World} (h : PInv ex fr w) (m : String) : PInv ex fr (w.fail m) :=
   h.same (sameCtl_of_procs (by simp)) (by simp) (by simp)
-theorem PInv.emit {fr : Pid → Option Frame} {w : World} (h : PInv fr w) (l : String) : PInv fr (w.emit l) :=
+theorem PInv.emit {ex : Pid → Prop} {fr : Pid → Option Frame} {w : World} (h : PInv ex fr w) (l : String) : PInv ex fr (w.emit l) :=
   h.same (SameCtl.refl _) rfl rfl
-theorem PInv.modProc_ctl {fr : Pid → Option Frame} {w : World} (h : PInv fr w) (p : Pid) (f : Proc → Proc)
-    (hf : ∀ x, (f x).awaits = x.awaits ∧ (f x).waiters = x.waiters ∧ (f x).status = x.status) :
-    PInv fr (w.modProc p f) :=
+theorem PInv.modProc_ctl {ex : Pid → Prop} {fr : Pid → Option Frame} {w : World} (h : PInv ex fr w) (p : Pid) (f : Proc → Proc)
+    (hf : ∀ x, (f x).awaits = x.awaits ∧ (f x).waiters = x.waiters ∧ (f x).status = x.status ∧ (f x).blocked = x.blocked) :
+    PInv ex fr (w.modProc p f) :=
   h.same (sameCtl_modProc w p f hf) rfl rfl
-theorem PInv.setRes {fr : Pid → Option Frame} {w : World} (h : PInv fr w) (x : Array Res) : PInv fr { w with res := x } :=
+theorem PInv.setRes {ex : Pid → Prop} {fr : Pid → Option Frame} {w : World} (h : PInv ex fr w) (x : Array Res) : PInv ex fr { w with res := x } :=
   h.same (SameCtl.refl _) rfl rfl
-theorem PInv.setPools {fr : Pid → Option Frame} {w : World} (h : PInv fr w) (x : Array Pool) : PInv fr { w with pools := x } :=
+theorem PInv.setPools {ex : Pid → Prop} {fr : Pid → Option Frame} {w : World} (h : PInv ex fr w) (x : Array Pool) : PInv ex fr { w with pools := x } :=
   h.same (SameCtl.refl _) rfl rfl
-theorem PInv.setBufs {fr : Pid → Option Frame} {w : World} (h : PInv fr w) (x : Array Buf) : PInv fr { w with bufs := x } :=
+theorem PInv.setBufs {ex : Pid → Prop} {fr : Pid → Option Frame} {w : World} (h : PInv ex fr w) (x : Array Buf) : PInv ex fr { w with bufs := x } :=
   h.same (SameCtl.refl _) rfl rfl
-theorem PInv.setOqs {fr : Pid → Option Frame} {w : World} (h : PInv fr w) (x : Array OQ) : PInv fr { w with oqs := x } :=
+theorem PInv.setOqs {ex : Pid → Prop} {fr : Pid → Option Frame} {w : World} (h : PInv ex fr w) (x : Array OQ) : PInv ex fr { w with oqs := x } :=
   h.same (SameCtl.refl _) rfl rfl
-theorem PInv.setPqs {fr : Pid → Option Frame} {w : World} (h : PInv fr w) (x : Array PQ) : PInv fr { w with pqs := x } :=
+theorem PInv.setPqs {ex : Pid → Prop} {fr : Pid → Option Frame} {w : World} (h : PInv ex fr w) (x : Array PQ) : PInv ex fr { w with pqs := x } :=
   h.same (SameCtl.refl _) rfl rfl
-theorem PInv.setFlags {fr : Pid → Option Frame} {w : World} (h : PInv fr w) (x : Array Int) : PInv fr { w with flags := x } :=
+theorem PInv.setFlags {ex : Pid → Prop} {fr : Pid → Option Frame} {w : World} (h : PInv ex fr w) (x : Array Int) : PInv ex fr { w with flags := x } :=
   h.same (SameCtl.refl _) rfl rfl
-theorem PInv.setGvars {fr : Pid → Option Frame} {w : World} (h : PInv fr w) (x : Array Nat) : PInv fr { w with gvars := x } :=
+theorem PInv.setGvars {ex : Pid → Prop} {fr : Pid → Option Frame} {w : World} (h : PInv ex fr w) (x : Array Nat) : PInv ex fr { w with gvars := x } :=
   h.same (SameCtl.refl _) rfl rfl
-theorem PInv.setGuards {fr : Pid → Option Frame} {w : World} (h : PInv fr w) (x : Array Guard) : PInv fr { w with guards := x } :=
+theorem PInv.setGuards {ex : Pid → Prop} {fr : Pid → Option Frame} {w : World} (h : PInv ex fr w) (x : Array Guard) : PInv ex fr { w with guards := x } :=
   h.same (SameCtl.refl _) rfl rfl
-theorem PInv.setGuardQ {fr : Pid → Option Frame} {w : World} (h : PInv fr w) (g : Nat) (q : HH) : PInv fr (setGuardQ w g q) :=
+theorem PInv.setGuardQ {ex : Pid → Prop} {fr : Pid → Option Frame} {w : World} (h : PInv ex fr w) (g : Nat) (q : HH) : PInv ex fr (setGuardQ w g q) :=
   h.same (SameCtl.refl _) rfl rfl
 
 /-- scheduling anything but a process-end / event-done wake-up -/
-theorem PInv.pushEv_other {fr : Pid → Option Frame} {w : World} (h : PInv fr w) (a s : Nat) (sig t pri : Int)
-    (ht : w.now ≤ t) (ha : a ≠ aProc ∧ a ≠ aEvent) : PInv fr (pushEv w a s sig t pri) := by
+theorem PInv.pushEv_other {ex : Pid → Prop} {fr : Pid → Option Frame} {w : World} (h : PInv ex fr w) (a s : Nat) (sig t pri : Int)
+    (ht : w.now ≤ t) (ha : a ≠ aProc ∧ a ≠ aEvent) : PInv ex fr (pushEv w a s sig t pri) := by
   refine h.congr (SameCtl.refl _) rfl ?_ (pushEv_evinv a s sig t pri ht h.ei)
   intro e' he' hk
   simp only [pushEv_pending, List.mem_cons] at he'
@@ -153,15 +160,15 @@ theorem PInv.pushEv_other {fr : Pid → Option Frame} {w : World} (h : PInv fr w
     · exact absurd hk ha.2
   · exact ⟨e', he', rfl, rfl⟩
 
-theorem PInv.sched_other {fr : Pid → Option Frame} {w : World} (h : PInv fr w) (a s : Nat) (sig t pri : Int)
-    (ha : a ≠ aProc ∧ a ≠ aEvent) : PInv fr (sched w a s sig t pri).1 := by
+theorem PInv.sched_other {ex : Pid → Prop} {fr : Pid → Option Frame} {w : World} (h : PInv ex fr w) (a s : Nat) (sig t pri : Int)
+    (ha : a ≠ aProc ∧ a ≠ aEvent) : PInv ex fr (sched w a s sig t pri).1 := by
   rcases sched_cases w a s sig t pri with ⟨ht, he⟩ | ⟨_, m, he⟩
   · rw [he]; exact h.pushEv_other a s sig t pri ht ha
   · rw [he]; exact h.fail m
 
 /-- a priority change of a pending event -/
-theorem PInv.reprioEv {fr : Pid → Option Frame} {w : World} (h : PInv fr w) {k : Nat} {v : Int} {ev' : EvQ}
-    (hr : reprioritize w.ev k v = .ok ev') : PInv fr { w with ev := ev' } := by
+theorem PInv.reprioEv {ex : Pid → Prop} {fr : Pid → Option Frame} {w : World} (h : PInv ex fr w) {k : Nat} {v : Int} {ev' : EvQ}
+    (hr : reprioritize w.ev k v = .ok ev') : PInv ex fr { w with ev := ev' } := by
   have hinv := (reprioritize_inv h.ei hr).1
   refine h.congr (SameCtl.refl _) rfl ?_ hinv
   unfold reprioritize at hr
@@ -219,98 +226,122 @@ theorem nodup_map_succ {l : List Nat} (h : l.Nodup) : (l.map (· + 1)).Nodup := 
     exact h.1 (this ▸ hy)
 
 /-- the waiters of `h` (in the world before) are distinct -/
-theorem PInv.evWaitersOf_nodup {fr : Pid → Option Frame} {w : World} (hp : PInv fr w) (h : Nat) : (evWaitersOf w h).Nodup := by
+theorem PInv.evWaitersOf_nodup {ex : Pid → Prop} {fr : Pid → Option Frame} {w : World} (hp : PInv ex fr w) (h : Nat) : (evWaitersOf w h).Nodup := by
   unfold evWaitersOf
   cases hl : w.evWaiters.lookup h with
   | none => simp
   | some l => exact hp.en.2 h l (lookup_mem hl)
 
-theorem PInv.evCancel_fst {fr : Pid → Option Frame} {w : World} (hp : PInv fr w) (h : Nat) : PInv fr (evCancel w h).1 := by
+theorem proc_congr {w w' : World} (h : w'.procs = w.procs) (p : Pid) : w'.proc p = w.proc p := by
+  unfold World.proc; rw [h]
+
+/-- an event `h` stops being pending (it is executed, or cancelled): its registered waiters get their wake-ups, the
+    registrations are taken off the table -/
+theorem PInv.popWake {ex : Pid → Prop} {fr : Pid → Option Frame} {w w1 : World} (hp : PInv ex fr w) (h : Nat) (sig : Int)
+    (hprocs : w1.procs = w.procs) (hwt : w1.evWaiters = w.evWaiters.filter (·.1 ≠ h))
+    (hsub : ∀ e ∈ w1.ev.pending, e ∈ w.ev.pending) (hei : EvInv w1.ev) :
+    PInv ex fr (pushAll w1 (evWakes w (evWaitersOf w h) sig)) := by
+  have hpr : ∀ x, (pushAll w1 (evWakes w (evWaitersOf w h) sig)).proc x = w.proc x := fun x => by
+    rw [pushAll_proc]; exact proc_congr hprocs x
+  have hsc : SameCtl w (pushAll w1 (evWakes w (evWaitersOf w h) sig)) := fun x => by rw [hpr]; exact ⟨rfl, rfl, rfl, rfl⟩
+  have hL : ∀ q ∈ evWaitersOf w h, ¬ ex q → Await.event h ∈ (w.proc q).awaits := by
+    intro q hq hx
+    obtain ⟨l, hm, hql⟩ := evWaitersOf_mem hq
+    exact hp.e1 h l q hm hql hx
+  have hwo : ∀ h', evWaitersOf (pushAll w1 (evWakes w (evWaitersOf w h) sig)) h' =
+      if h' = h then [] else evWaitersOf w h' := by
+    intro h'
+    unfold evWaitersOf
+    simp only [pushAll_evWaiters, hwt]
+    by_cases he : h' = h
+    · subst he
+      rw [lookup_filter_self]; simp
+    · simp only [he, if_false]; rw [lookup_filter_ne _ _ _ he]
+  have hnew : ∀ e ∈ wakeEvs w1.ev.counter w1.now (evWakes w (evWaitersOf w h) sig),
+      e.item.a = aEvent ∧ ∃ q ∈ evWaitersOf w h, e.item.b = q + 1 := by
+    intro e he
+    obtain ⟨_, _, _, _, x, hx, heq⟩ := wakeEvs_props he
+    simp only [evWakes, List.mem_map] at hx
+    obtain ⟨q, hq, rfl⟩ := hx
+    rw [heq]; exact ⟨rfl, q, hq, rfl⟩
+  have hnp : (aEvent : Nat) ≠ aProc := by decide
+  refine { ei := pushAll_evinv _ hei,
+           ap := fun x => by rw [procAw_congr hsc]; exact hp.ap x,
+           ae := fun x => by rw [evAw_congr hsc]; exact hp.ae x,
+           ar := fun x hx => by rw [hpr] at hx ⊢; exact hp.ar x hx,
+           fb := fun x hx => by rw [procAw_congr hsc, evAw_congr hsc]; rw [hpr] at hx; exact hp.fb x hx,
+           w1 := fun x q hq hx => by rw [hpr] at hq ⊢; exact hp.w1 x q hq hx,
+           wn := fun x => by rw [hpr]; exact hp.wn x,
+           e1 := ?_, en := ?_, op := ?_, oe := ?_, up := ?_, ue := ?_ }
+  · intro h' l q hm hq hx
+    simp only [pushAll_evWaiters, hwt, List.mem_filter] at hm
+    rw [hpr]; exact hp.e1 h' l q hm.1 hq hx
+  · simp only [pushAll_evWaiters, hwt]
+    refine ⟨List.Nodup.sublist ((List.filter_sublist).map _) hp.en.1, ?_⟩
+    intro h' l hm
+    exact hp.en.2 h' l (List.mem_filter.1 hm).1
+  · intro e he ha p hb hx
+    simp only [pushAll_pending, List.mem_append] at he
+    rcases he with he | he
+    · exact absurd ((hnew e he).1.symm.trans ha) hnp
+    · obtain ⟨q, h1, h2⟩ := hp.op e (hsub e he) ha p hb hx
+      exact ⟨q, by rw [hpr]; exact h1, by rw [hpr]; exact h2⟩
+  · intro e he ha p hb hx
+    simp only [pushAll_pending, List.mem_append] at he
+    rcases he with he | he
+    · obtain ⟨_, q, hq, hbq⟩ := hnew e he
+      have hqp : q + 1 = p + 1 := hbq.symm.trans hb
+      have : q = p := Nat.add_right_cancel hqp
+      subst this
+      exact ⟨h, by rw [hpr]; exact hL q hq hx, by rw [hwo]; simp⟩
+    · obtain ⟨h', h1, h2⟩ := hp.oe e (hsub e he) ha p hb hx
+      refine ⟨h', by rw [hpr]; exact h1, ?_⟩
+      rw [hwo]; split
+      · simp
+      · exact h2
+  · intro a ha b hb haa hba hbb p hbp hx
+    simp only [pushAll_pending, List.mem_append] at ha hb
+    rcases ha with ha | ha
+    · exact absurd ((hnew a ha).1.symm.trans haa) hnp
+    · rcases hb with hb | hb
+      · exact absurd ((hnew b hb).1.symm.trans hba) hnp
+      · exact hp.up a (hsub a ha) b (hsub b hb) haa hba hbb p hbp hx
+  · intro a ha b hb haa hba hbb p hbp hx
+    simp only [pushAll_pending, List.mem_append] at ha hb
+    -- an old event-done wake-up for q excludes q from the waiters of the event it awaits
+    have hclash : ∀ x ∈ w.ev.pending, x.item.a = aEvent → ∀ q ∈ evWaitersOf w h, ¬ ex q → x.item.b = q + 1 → False := by
+      intro x hx hxa q hq hxq hxb
+      obtain ⟨h', h1, h2⟩ := hp.oe x hx hxa q hxb hxq
+      have hh : h' = h := by
+        rcases hp.ae q with hnil | ⟨h'', _, hone⟩
+        · have : Await.event h' ∈ evAw w q := List.mem_filter.2 ⟨h1, rfl⟩
+          rw [hnil] at this; cases this
+        · have m1 : Await.event h' ∈ evAw w q := List.mem_filter.2 ⟨h1, rfl⟩
+          have m2 : Await.event h ∈ evAw w q := List.mem_filter.2 ⟨hL q hq hxq, rfl⟩
+          rw [hone] at m1 m2
+          simp only [List.mem_singleton, Await.event.injEq] at m1 m2
+          rw [m1, m2]
+      rw [hh] at h2; exact h2 hq
+    rcases ha with ha | ha <;> rcases hb with hb | hb
+    · refine wakeEvs_subj_inj ?_ ha hb hbb
+      rw [evWakes_subj]; exact nodup_map_succ (hp.evWaitersOf_nodup h)
+    · obtain ⟨_, q, hq, hbq⟩ := hnew a ha
+      have : q = p := Nat.add_right_cancel (hbq.symm.trans hbp)
+      subst this
+      exact (hclash b (hsub b hb) hba q hq hx (by rw [← hbb, hbq])).elim
+    · obtain ⟨_, q, hq, hbq⟩ := hnew b hb
+      have : q = p := Nat.add_right_cancel (hbq.symm.trans (hbb.symm.trans hbp))
+      subst this
+      exact (hclash a (hsub a ha) haa q hq hx hbp).elim
+    · exact hp.ue a (hsub a ha) b (hsub b hb) haa hba hbb p hbp hx
+
+theorem PInv.evCancel_fst {ex : Pid → Prop} {fr : Pid → Option Frame} {w : World} (hp : PInv ex fr w) (h : Nat) :
+    PInv ex fr (evCancel w h).1 := by
   rw [evCancel_eq]
   split
   · rename_i hk
-    change PInv fr (pushAll (cancelEv w h) (evWakes w (evWaitersOf w h) sigCancelled))
-    have hL : ∀ q ∈ evWaitersOf w h, Await.event h ∈ (w.proc q).awaits := by
-      intro q hq
-      obtain ⟨l, hm, hql⟩ := evWaitersOf_mem hq
-      exact hp.e1 h l q hm hql
-    have hwo : ∀ h', evWaitersOf (pushAll (cancelEv w h) (evWakes w (evWaitersOf w h) sigCancelled)) h' =
-        if h' = h then [] else evWaitersOf w h' := by
-      intro h'
-      unfold evWaitersOf
-      simp only [pushAll_evWaiters, cancelEv_evWaiters]
-      by_cases he : h' = h
-      · subst he
-        rw [lookup_filter_self]; simp
-      · simp only [he, if_false]; rw [lookup_filter_ne _ _ _ he]
-    -- a new wake-up for q: q was a registered waiter of h
-    have hnew : ∀ e ∈ wakeEvs (cancelEv w h).ev.counter (cancelEv w h).now (evWakes w (evWaitersOf w h) sigCancelled),
-        e.item.a = aEvent ∧ ∃ q ∈ evWaitersOf w h, e.item.b = q + 1 := by
-      intro e he
-      obtain ⟨_, _, _, _, x, hx, heq⟩ := wakeEvs_props he
-      simp only [evWakes, List.mem_map] at hx
-      obtain ⟨q, hq, rfl⟩ := hx
-      rw [heq]; exact ⟨rfl, q, hq, rfl⟩
-    have hnp : (aEvent : Nat) ≠ aProc := by decide
-    refine { ei := pushAll_evinv _ (cancelEv_evinv hk hp.ei), ap := hp.ap, ae := hp.ae, ar := hp.ar, w1 := hp.w1,
-             wn := hp.wn, e1 := ?_, en := ?_, op := ?_, oe := ?_, up := ?_, ue := ?_ }
-    · intro h' l q hm hq
-      simp only [pushAll_evWaiters, cancelEv_evWaiters, List.mem_filter] at hm
-      exact hp.e1 h' l q hm.1 hq
-    · simp only [pushAll_evWaiters, cancelEv_evWaiters]
-      refine ⟨List.Nodup.sublist ((List.filter_sublist).map _) hp.en.1, ?_⟩
-      intro h' l hm
-      exact hp.en.2 h' l (List.mem_filter.1 hm).1
-    · intro e he ha p hb
-      simp only [pushAll_pending, cancelEv_pending, List.mem_append] at he
-      rcases he with he | he
-      · exact absurd ((hnew e he).1.symm.trans ha) hnp
-      · exact hp.op e (mem_remove.1 he).1 ha p hb
-    · intro e he ha p hb
-      simp only [pushAll_pending, cancelEv_pending, List.mem_append] at he
-      rcases he with he | he
-      · obtain ⟨_, q, hq, hbq⟩ := hnew e he
-        have hqp : q + 1 = p + 1 := hbq.symm.trans hb
-        have : q = p := Nat.add_right_cancel hqp
-        subst this
-        exact ⟨h, hL q hq, by rw [hwo]; simp⟩
-      · obtain ⟨h', h1, h2⟩ := hp.oe e (mem_remove.1 he).1 ha p hb
-        refine ⟨h', h1, ?_⟩
-        rw [hwo]; split
-        · simp
-        · exact h2
-    · intro a ha b hb haa hba hbb
-      simp only [pushAll_pending, cancelEv_pending, List.mem_append] at ha hb
-      rcases ha with ha | ha
-      · exact absurd ((hnew a ha).1.symm.trans haa) hnp
-      · rcases hb with hb | hb
-        · exact absurd ((hnew b hb).1.symm.trans hba) hnp
-        · exact hp.up a (mem_remove.1 ha).1 b (mem_remove.1 hb).1 haa hba hbb
-    · intro a ha b hb haa hba hbb
-      simp only [pushAll_pending, cancelEv_pending, List.mem_append] at ha hb
-      -- an old event-done wake-up for q excludes q from the waiters of the event it awaits
-      have hclash : ∀ x ∈ w.ev.pending, x.item.a = aEvent → ∀ y, (∃ q ∈ evWaitersOf w h, y = q + 1) → x.item.b = y → False := by
-        intro x hx hxa y ⟨q, hq, hy⟩ hxb
-        obtain ⟨h', h1, h2⟩ := hp.oe x hx hxa q (by rw [hxb, hy])
-        -- q awaits exactly one event
-        have hh : h' = h := by
-          rcases hp.ae q with hnil | ⟨h'', _, hone⟩
-          · have : Await.event h' ∈ evAw w q := List.mem_filter.2 ⟨h1, rfl⟩
-            rw [hnil] at this; cases this
-          · have m1 : Await.event h' ∈ evAw w q := List.mem_filter.2 ⟨h1, rfl⟩
-            have m2 : Await.event h ∈ evAw w q := List.mem_filter.2 ⟨hL q hq, rfl⟩
-            rw [hone] at m1 m2
-            simp only [List.mem_singleton, Await.event.injEq] at m1 m2
-            rw [m1, m2]
-        rw [hh] at h2; exact h2 hq
-      rcases ha with ha | ha <;> rcases hb with hb | hb
-      · refine wakeEvs_subj_inj ?_ ha hb hbb
-        rw [evWakes_subj]; exact nodup_map_succ (hp.evWaitersOf_nodup h)
-      · obtain ⟨_, q, hq, hbq⟩ := hnew a ha
-        exact (hclash b (mem_remove.1 hb).1 hba _ ⟨q, hq, rfl⟩ (by rw [← hbb, hbq])).elim
-      · obtain ⟨_, q, hq, hbq⟩ := hnew b hb
-        exact (hclash a (mem_remove.1 ha).1 haa _ ⟨q, hq, rfl⟩ (by rw [hbb, hbq])).elim
-      · exact hp.ue a (mem_remove.1 ha).1 b (mem_remove.1 hb).1 haa hba hbb
+    change PInv ex fr (pushAll (cancelEv w h) (evWakes w (evWaitersOf w h) sigCancelled))
+    exact hp.popWake h sigCancelled rfl rfl (fun e he => (mem_remove.1 he).1) (cancelEv_evinv hk hp.ei)
   · exact hp
 
 end CimbaModel.Sim.S3
